@@ -8,6 +8,14 @@ def hx(bs):
 ALPHA = [0x61, 0x62, 0x20, 0x09, 0x27, 0x22, 0x5c, 0x3a]      # a b space tab ' " \ :
 DSETS = ['N', '3a', '203a', '6162']                            # default, ":", " :", "ab"
 EXTRA = [0x80, 0xff, 0x0a, 0x0b, 0x0c, 0x0d, 0x41, 0x01]
+# the high-bit twin (c | 0x80) of every character the scanners treat specially (and of the two letters that are
+# delimiters in the set "ab"): a table indexed by c & 0x7f, a signed-char comparison or an isascii() shortcut
+# confuses exactly these with their ASCII partners
+TWINS = [c | 0x80 for c in ALPHA]                              # e1 e2 a0 89 a7 a2 dc ba
+WS_TWINS = [c | 0x80 for c in (0x0a, 0x0b, 0x0c, 0x0d)]
+ALPHA16 = ALPHA + TWINS
+# delimiter sets that contain bytes >= 0x80 (alone, next to their ASCII partner, next to another delimiter)
+HDSETS = ['ba', '3aba', 'a0', '20a0', 'e1e2', '61e2', 'dc', 'a7a2', '89', 'ff80', '3aff']
 
 def strings_of(n, alpha):
     for t in itertools.product(alpha, repeat=n):
@@ -29,7 +37,9 @@ class C12(vlib.PropertyCheck):
                        '(T n with n >= 1), one word (N n with n >= 1) or a joined string; the bounded stratum enumerates '
                        'every string over {a, b, space, tab, \', ", \\, :} up to the tier length, each put through split and '
                        'tok with the delimiter sets {NULL, ":", " :", "ab"} and through num_words / get_word / get_pword '
-                       'for every index 0..n+1; distinct = distinct case lines')
+                       'for every index 0..n+1; a second bounded stratum does the same over these eight characters plus '
+                       'their eight high-bit twins (c|0x80) and adds split/tok with delimiter sets containing bytes >= 0x80; '
+                       'distinct = distinct case lines')
     assumptions = ['inputs are valid C strings in exactly sized heap blocks (the harness allocates them so)',
                    'object sizes below 2^31 (counters are modelled as unbounded integers)',
                    '"C" locale isspace; the delimiter set is a valid C string or NULL',
@@ -54,14 +64,40 @@ class C12(vlib.PropertyCheck):
               'property; the model follows the code and the check compares them at level B). The model is tied to the current tree by '
               'running its extracted OCaml form and the ASan/UBSan build of src/strings.c, src/tok.c on the same cases: every string '
               'over {a, b, space, tab, \', ", \\, :} up to length 5 (quick) / 7 (thorough) through split and tok with the delimiter sets '
-              '{NULL, ":", " :", "ab"} and through num_words/get_word/get_pword for all indices 0..n+1, random strings up to 300 bytes '
-              'with further delimiter sets, join and join-then-split cases, and the 65536-token boundary of split; the driver also '
-              'compares the model with the extracted specification on every case.'),
+              '{NULL, ":", " :", "ab"} and through num_words/get_word/get_pword for all indices 0..n+1; every string over these eight '
+              'characters plus the high-bit twin (c|0x80) of each up to length 4 (quick) / 5 (thorough) the same way, and up to length 3 '
+              'through split and tok with eleven delimiter sets containing bytes >= 0x80; every byte value 1..255 as text, as delimiter and '
+              'next to its twin; random strings up to 300 bytes over all 255 non-NUL values with further delimiter sets (drawn from the '
+              'string and from the twins of its characters), join and join-then-split cases with high bytes in tokens and separators, and '
+              'the 65536-token boundary of split; the driver also compares the model with the extracted specification on every case.'),
         design_ref='DESIGN.md section 7, C12')
 
     EXH_QUICK = 5
     EXH_MAIN_THOROUGH = 6
     EXH_THOROUGH = 7
+    # second exhaustive stratum: the same eight characters plus their eight high-bit twins
+    EXH16_QUICK = 4
+    EXH16_THOROUGH = 5
+    # explicit high-byte delimiter sets on every string over the sixteen characters
+    EXH16_DSETS = 3
+
+    def twin_cases(self, top):
+        """every string over the eight special characters and their high-bit twins up to length top through all
+        scanners ('all': delimiter sets NULL, ":", " :", "ab"), and up to length EXH16_DSETS through split and tok
+        with every delimiter set that contains a high byte"""
+        cases = []
+        for n in range(1, top + 1):
+            for t in strings_of(n, ALPHA16):
+                if all(c < 0x80 for c in t):
+                    continue            # already in the eight-character stratum
+                cases.append('all ' + hx(t))
+        for n in range(0, self.EXH16_DSETS + 1):
+            for t in strings_of(n, ALPHA16):
+                h = hx(t)
+                for d in HDSETS:
+                    cases.append('split %s %s' % (d, h))
+                    cases.append('tok %s %s' % (d, h))
+        return cases
 
     def fixed_cases(self, rng, tier):
         cases = []
@@ -70,19 +106,22 @@ class C12(vlib.PropertyCheck):
         if tier == 'thorough':
             cases += ['splitbig N 6120 65535', 'splitbig N 6120 65537', 'splitbig 3a 3a61 65537']
         # join: every list of up to 3 tokens over a small token set x separators; NULL and empty array
-        toks = [[], [0x61], [0x61, 0x62], [0x20], [0x22], [0x5c], [0x3a, 0x61]]
-        seps = ['N', '-', '3a', '20', '3a20', '6162']
+        toks = [[], [0x61], [0x61, 0x62], [0x20], [0x22], [0x5c], [0x3a, 0x61], [0xba], [0xa0, 0x61, 0xff]]
+        seps = ['N', '-', '3a', '20', '3a20', '6162', 'ba', 'a03a']
         for sep in seps:
             cases.append('join %s' % sep)
             for n in (1, 2, 3):
                 for ts in itertools.product(toks, repeat=n):
                     cases.append('join %s %s' % (sep, ' '.join(hx(t) for t in ts)))
         # round trip: plain tokens (no delimiter, quote, backslash), separator drawn from the delimiter set
-        plain_alpha = {'N': [0x61, 0x62, 0x3a, 0x41], '3a': [0x61, 0x62, 0x20, 0x09], '203a': [0x61, 0x62, 0x09, 0x41],
-                       '6162': [0x63, 0x20, 0x3a, 0x09]}
+        # (the high-bit twins of the set's delimiters are plain characters and must survive the round trip)
+        plain_alpha = {'N': [0x61, 0x62, 0x3a, 0x41, 0xa0, 0x89, 0x8a], '3a': [0x61, 0x62, 0x20, 0x09, 0xba],
+                       '203a': [0x61, 0x62, 0x09, 0x41, 0xa0, 0xba], '6162': [0x63, 0x20, 0x3a, 0x09, 0xe1, 0xe2],
+                       'ba': [0x3a, 0x61, 0x20, 0xbb], '20a0': [0x61, 0x09, 0xa1, 0x80], 'e1e2': [0x61, 0x62, 0x20, 0xe3]}
         sep_of = {'N': [[0x20], [0x09], [0x20, 0x20], [0x0a, 0x20]], '3a': [[0x3a], [0x3a, 0x3a]],
-                  '203a': [[0x20], [0x3a], [0x3a, 0x20]], '6162': [[0x61], [0x62], [0x61, 0x62, 0x61]]}
-        for d in DSETS:
+                  '203a': [[0x20], [0x3a], [0x3a, 0x20]], '6162': [[0x61], [0x62], [0x61, 0x62, 0x61]],
+                  'ba': [[0xba], [0xba, 0xba]], '20a0': [[0xa0], [0x20, 0xa0]], 'e1e2': [[0xe1], [0xe2, 0xe1]]}
+        for d in DSETS + ['ba', '20a0', 'e1e2']:
             pt = [list(t) for n in (1, 2) for t in strings_of(n, plain_alpha[d])]
             for sep in sep_of[d]:
                 for n in (1, 2, 3):
@@ -97,7 +136,15 @@ class C12(vlib.PropertyCheck):
         cases = []
         for _ in range(count):
             n = rng.choice([6, 7, 8, 9, 12, 16, 31, 64, 150, 300])
-            alpha = ALPHA + (EXTRA if rng.random() < 0.3 else [])
+            m = rng.random()
+            if m < 0.35:
+                alpha = ALPHA + (EXTRA if rng.random() < 0.3 else [])
+            elif m < 0.65:
+                # the special characters and their high-bit twins
+                alpha = ALPHA16 + (WS_TWINS + EXTRA if rng.random() < 0.3 else [])
+            else:
+                # any of the 255 non-NUL byte values between the structure characters
+                alpha = ALPHA + TWINS[2:] + [rng.randrange(1, 256) for _ in range(16)]
             # bias: runs of structure characters, trailing backslash / quote
             s = [rng.choice(alpha) for _ in range(n)]
             r = rng.random()
@@ -107,7 +154,11 @@ class C12(vlib.PropertyCheck):
                 s[-1] = rng.choice([0x22, 0x27])
             elif r < 0.30:
                 s[-2:] = [0x5c, 0x5c]
-            d = rng.choice(DSETS + DSETS + ['-', '22', '5c', '2027', '615c', '20093a'])
+            d = rng.choice(DSETS + DSETS + ['-', '22', '5c', '2027', '615c', '20093a'] + HDSETS)
+            if rng.random() < 0.15:
+                # a set drawn from the string itself: a character, the twin of another one, any byte
+                c1, c2 = rng.choice(s), rng.choice(s) ^ 0x80
+                d = hx([c for c in (c1, c2, rng.randrange(1, 256))[:rng.choice([1, 2, 3])] if c])
             op = rng.choice(['split', 'tok', 'words', 'all'])
             if op == 'words':
                 cases.append('words %s' % hx(s))
@@ -123,7 +174,17 @@ class C12(vlib.PropertyCheck):
         for n in range(top + 1):
             for t in strings_of(n, ALPHA):
                 cases.append('all ' + hx(t))
-        cases += self.random_cases(rng, 3000 if tier == 'quick' else 60000)
+        cases += self.twin_cases(self.EXH16_QUICK)
+        # every byte value 1..255 alone, doubled, between letters and next to each structure character
+        for c in range(1, 256):
+            tw = (c ^ 0x80) or 0x41
+            cases.append('all %s' % hx([c]))
+            cases.append('all %s' % hx([0x61, c, 0x62, c, c, 0x20, c]))
+            body = hx([0x61, c, 0x62, tw, 0x63, 0x5c, c, 0x22, c, 0x22])
+            for d in ([c], [tw], [c, tw]):
+                cases.append('split %s %s' % (hx(d), body))
+                cases.append('tok %s %s' % (hx(d), body))
+        cases += self.random_cases(rng, 6000 if tier == 'quick' else 60000)
         return cases
 
     def search_gen(self, tier, rng):
@@ -131,12 +192,15 @@ class C12(vlib.PropertyCheck):
         for n in range(self.EXH_MAIN_THOROUGH + 1):
             for t in strings_of(n, ALPHA):
                 cases.append('all ' + hx(t))
-        return cases + self.random_cases(rng, 20000)
+        return cases + self.twin_cases(self.EXH16_QUICK) + self.random_cases(rng, 20000)
 
     def extra_steps(self, ctx):
         """thorough: the length-7 stratum, in chunks so that the outputs never sit in memory together"""
+        twin_note = dict(alphabet='a b space tab \' " \\ : and the high-bit twin (c|0x80) of each', delimiter_sets=DSETS,
+                         high_byte_delimiter_sets=HDSETS, high_byte_delimiter_sets_max_len=self.EXH16_DSETS)
         if ctx['tier'] != 'thorough' or not ctx['model_exe']:
             ctx['cov']['exhaustive'] = dict(alphabet='a b space tab \' " \\ :', max_len=self.EXH_QUICK, delimiter_sets=DSETS)
+            ctx['cov']['exhaustive_twins'] = dict(twin_note, max_len=self.EXH16_QUICK)
             return []
         out = []
         n = self.EXH_THOROUGH
@@ -157,6 +221,15 @@ class C12(vlib.PropertyCheck):
             if len(chunk) >= 262144:
                 flush()
         flush()
+        # the sixteen-character stratum one length further than the main run
+        for t in strings_of(self.EXH16_THOROUGH, ALPHA16):
+            if all(c < 0x80 for c in t):
+                continue
+            chunk.append('all ' + hx(t))
+            if len(chunk) >= 262144:
+                flush()
+        flush()
+        ctx['cov']['exhaustive_twins'] = dict(twin_note, max_len=self.EXH16_THOROUGH)
         cov = ctx['cov']
         cov['evaluations'] = cov.get('evaluations', 0) + total
         cov['distinct_nontrivial'] = cov.get('distinct_nontrivial', 0) + total
